@@ -792,6 +792,106 @@ Proof.
   - destruct (Nat.ltb 0 begin_ && (d_ver r <? 0)%Z); cbn [negb]; [right; apply (Hcopy _ _ None)|left; apply Hdrop].
 Qed.
 
+(* ---- what one GC step does to the index and to the counters ---- *)
+Lemma hints_set_tree cf b h key ver vh p rs gc h' : tree_get_slot (hints_set cf b h key ver vh p rs gc) h' = tree_get_slot b h'.
+Proof.
+  unfold hints_set. rewrite (core_tree _ _ h' (hints_set_item_core cf _ _ _ _)). destruct (ct_has_hash (b_ctab b) h); reflexivity.
+Qed.
+
+Lemma gc_record_tree cf hf begin_ src st e :
+  let st' := gc_record cf hf begin_ src st e in let h := hf (d_key (snd e)) in
+  (forall h', h' <> h -> tree_get_slot (gc_b st') h' = tree_get_slot (gc_b st) h') /\
+  (tree_get_slot (gc_b st) h = None -> tree_get_slot (gc_b st') h = None).
+Proof.
+  cbv zeta. destruct e as [off r]. cbn [snd]. set (b := gc_b st). set (D := gc_dst st). set (h := hf (d_key r)). set (oldp := mkPos src off).
+  assert (Hdrop : forall gs', (forall h', h' <> h -> tree_get_slot (gc_b (mkGC b D gs')) h' = tree_get_slot b h') /\
+                              (tree_get_slot b h = None -> tree_get_slot (gc_b (mkGC b D gs')) h = None)) by (intros gs'; split; auto).
+  assert (Hcopy : forall gs' vh,
+     let st' := (let '(b1, dst) := if c_filemax cf <? dsize r + k_whead (chunk_at b D)
+                           then (begin_gc_writing (trydump (end_gc_writing b D) D true) (S D) src, S D) else (b, D) in
+         let '(b2, noff) := append_gc b1 dst r in
+         let b3 := match tree_get_slot b h with
+                   | Some _ => match tree_get_slot b2 h with
+                               | Some s => if gc_repoint_conditional && negb (pos_eqb (s_pos s) oldp) then b2
+                                           else tree_put b2 h (mkSlot (mkPos dst noff) (s_ver s) (s_vh s))
+                               | None => b2 end
+                   | None => b2 end in
+         mkGC (hints_set cf b3 h (d_key r) (d_ver r) vh (mkPos dst noff) (dsize r) true) dst gs') in
+     (forall h', h' <> h -> tree_get_slot (gc_b st') h' = tree_get_slot b h') /\
+     (tree_get_slot b h = None -> tree_get_slot (gc_b st') h = None)).
+  { intros gs' vh. cbv zeta.
+    assert (Hb1 : forall h', tree_get_slot (begin_gc_writing (trydump (end_gc_writing b D) D true) (S D) src) h' = tree_get_slot b h').
+    { intros h'. rewrite begin_gc_eq, end_gc_eq. change (tree_get_slot (set_chunk ?x ?c ?k) h') with (tree_get_slot x h').
+      rewrite (core_tree _ _ h' (trydump_core _ D true)). reflexivity. }
+    destruct (c_filemax cf <? dsize r + k_whead (chunk_at b D)); rewrite append_gc_eq; cbn [gc_b].
+    - set (b1 := begin_gc_writing (trydump (end_gc_writing b D) D true) (S D) src) in *.
+      set (b2 := set_chunk b1 (S D) (append_gc_chunk (chunk_at b1 (S D)) r)).
+      assert (H2 : forall h', tree_get_slot b2 h' = tree_get_slot b h') by (intros h'; change (tree_get_slot b2 h') with (tree_get_slot b1 h'); apply Hb1).
+      split.
+      + intros h' Hne. rewrite hints_set_tree. destruct (tree_get_slot b h); [|apply H2].
+        destruct (tree_get_slot b2 h); [|apply H2]. destruct (_ && _); [apply H2|]. rewrite tree_put_other by congruence. apply H2.
+      + intros Hn. rewrite hints_set_tree, Hn, H2. exact Hn.
+    - set (b2 := set_chunk b D (append_gc_chunk (chunk_at b D) r)).
+      assert (H2 : forall h', tree_get_slot b2 h' = tree_get_slot b h') by (intros h'; reflexivity).
+      split.
+      + intros h' Hne. rewrite hints_set_tree. destruct (tree_get_slot b h); [|apply H2].
+        destruct (tree_get_slot b2 h); [|apply H2]. destruct (_ && _); [apply H2|]. rewrite tree_put_other by congruence. apply H2.
+      + intros Hn. rewrite hints_set_tree, Hn, H2. exact Hn. }
+  unfold gc_record. fold b D h oldp.
+  destruct (tree_get_slot b h) as [s|] eqn:Es.
+  - destruct (pos_eqb oldp (s_pos s)) eqn:Ep.
+    + cbn [negb]. apply Hcopy.
+    + destruct (get_collision_gc b h (d_key r)) as [[[it ck]|] []]; try (cbn [negb]; apply Hdrop).
+      * destruct (pos_eqb (mkPos ck (hi_off it)) oldp); cbn [negb]; [apply Hcopy|apply Hdrop].
+      * cbn [negb]. apply Hcopy.
+  - destruct (Nat.ltb 0 begin_ && (d_ver r <? 0)%Z); cbn [negb]; [apply Hcopy|apply Hdrop].
+Qed.
+
+(* ---- offset order of the written part of a destination ---- *)
+Definition below (k : chunk) : list (N * drec) := filter (fun e => rend e <=? k_whead k) (k_disk k).
+
+Lemma spaced_snoc l x : spaced l -> Forall (fun e => rend e <= fst x) l -> spaced (l ++ [x]).
+Proof.
+  unfold spaced. induction l as [|a l IH]; intros Hs Hf; cbn [app]; [constructor; [constructor|constructor]|].
+  inversion Hs as [|? ? Hs' Ha]; subst. inversion Hf as [|? ? Hfa Hf']; subst. constructor; [now apply IH|].
+  apply Forall_app. split; [exact Ha|]. constructor; [|constructor]. unfold rend in Hfa. exact Hfa.
+Qed.
+
+Lemma filter_nil_all {A} (f : A -> bool) l : (forall x, In x l -> f x = false) -> filter f l = [].
+Proof. induction l as [|a l IH]; intros H; cbn [filter]; [reflexivity|]. rewrite (H a) by now left. apply IH. intros x Hx. apply H. now right. Qed.
+
+Lemma filter_id_all {A} (f : A -> bool) l : (forall x, In x l -> f x = true) -> filter f l = l.
+Proof. induction l as [|a l IH]; intros H; cbn [filter]; [reflexivity|]. rewrite (H a) by now left. f_equal. apply IH. intros x Hx. apply H. now right. Qed.
+
+Lemma filter_filter_ext {A} (f g h : A -> bool) l : (forall x, In x l -> f x && g x = h x) -> filter f (filter g l) = filter h l.
+Proof.
+  induction l as [|a l IH]; intros H; cbn [filter]; [reflexivity|]. pose proof (H a (or_introl eq_refl)) as Ha.
+  assert (IH' : filter f (filter g l) = filter h l) by (apply IH; intros x Hx; apply H; now right).
+  destruct (g a) eqn:Eg; cbn [filter]; [destruct (f a) eqn:Ef; cbn [andb] in Ha; rewrite <- Ha; [now f_equal|exact IH']|].
+  rewrite andb_false_r in Ha. rewrite <- Ha. exact IH'.
+Qed.
+
+Lemma below_append k r : nostraddle k -> below (append_gc_chunk k r) = below k ++ [(k_whead k, r)].
+Proof.
+  intros Hns. unfold below, append_gc_chunk. cbn [k_disk k_whead]. rewrite filter_app. cbn [filter]. unfold rend at 2. cbn [fst snd].
+  replace (k_whead k + dsize r <=? k_whead k + dsize r) with true by (symmetry; apply N.leb_le; lia). f_equal.
+  apply filter_filter_ext. intros e He. unfold nostraddle in Hns. rewrite Forall_forall in Hns. specialize (Hns e He).
+  pose proof (dsize_pos r). pose proof (dsize_pos (snd e)). unfold rend in *. lia.
+Qed.
+
+Lemma below_forall k : Forall (fun e => rend e <= k_whead k) (below k).
+Proof. apply Forall_forall. intros e He. unfold below in He. apply filter_In in He as [_ He]. lia. Qed.
+
+Lemma end_gc_disk k : gchunk k -> nostraddle k -> (k_rewriting k = true \/ k_whead k = k_size k) -> k_disk (end_gc_chunk k) = below k.
+Proof.
+  intros (Hw & He & Hnd & Hsz) Hns Hc. unfold end_gc_chunk, below. destruct (k_rewriting k && (k_whead k <? k_size k)) eqn:E; cbn [k_disk].
+  - apply filter_ext_in. intros e Hin. unfold nostraddle in Hns. rewrite Forall_forall in Hns. specialize (Hns e Hin).
+    pose proof (dsize_pos (snd e)). unfold rend in *. lia.
+  - symmetry. apply filter_id_all. intros e Hin. rewrite Forall_forall in Hsz. specialize (Hsz e Hin). cbv beta in Hsz. apply N.leb_le.
+    assert (Hq : k_whead k = k_size k \/ k_whead k <> k_size k) by lia. destruct Hq as [Hq|Hq]; [lia|].
+    destruct Hc as [Hr|Hq']; [|lia]. rewrite Hr in E. cbn [andb] in E. apply N.ltb_ge in E. lia.
+Qed.
+
 (* ================================================================ C18: what the pass leaves in the files it writes *)
 Section GV2b.
 Variable cf : cfg.
@@ -1008,13 +1108,56 @@ Proof.
     + intros x Hin. apply P4. rewrite E. now apply E4.
 Qed.
 
-Definition GA (st : gcst) (src : nat) (R : list (N * drec)) : Prop := GI cf hf K b0 st src R /\ GX b0 st /\ GC2 st /\ GP st.
+(* ---- the files written so far are in offset order ---- *)
+Definition GS (st : gcst) : Prop :=
+  (forall c, (dst0 <= c < gc_dst st)%nat -> spaced (k_disk (chunk_at (gc_b st) c))) /\ spaced (below (chunk_at (gc_b st) (gc_dst st))).
+
+Lemma gs_frame b' D stat' st : gc_dst st = D -> (forall c, chunk_at b' c = chunk_at (gc_b st) c) -> GS st -> GS (mkGC b' D stat').
+Proof. intros <- Hc (S1 & S2). unfold GS. cbn [gc_b gc_dst]. rewrite Hc. split; [intros c H; rewrite Hc; auto|exact S2]. Qed.
+
+Lemma gs_record st src e R' : GI cf hf K b0 st src (e :: R') -> GX b0 st -> GS st -> GS (gc_record cf hf begin_ src st e).
+Proof.
+  intros HG [X1 _] (S1 & S2). pose proof HG as (G1 & G2 & G3 & G4 & G5 & G6 & G7 & G8 & G9 & _). cbv zeta in G1, G2, G3, G4, G5, G6, G7, G8, G9, X1.
+  set (b := gc_b st) in *. set (D := gc_dst st) in *.
+  assert (HDlt : (D < b_head b0)%nat) by lia.
+  pose proof (gc_record_shape cf hf begin_ src st e) as Hsh. cbv zeta in Hsh. set (st' := gc_record cf hf begin_ src st e) in *.
+  destruct Hsh as [[E1 E2]|[[E1 E2]|(E0 & E1 & E2)]]; unfold GS; rewrite E1; fold b D.
+  - split; [intros c Hc; rewrite E2; auto|rewrite E2; exact S2].
+  - split; [intros c Hc; rewrite E2; fold b D; replace (Nat.eqb c D) with false by (symmetry; apply Nat.eqb_neq; lia); auto|].
+    rewrite E2. fold b D. rewrite Nat.eqb_refl, below_append by exact G7. apply spaced_snoc; [exact S2|]. cbn [fst]. apply below_forall.
+  - cbv zeta in E0, E2. fold b D in E0, E2.
+    destruct e as [off r]. cbn [snd] in *.
+    destruct (gi_switch cf hf K cap_pos b0 st src off r R' HG ltac:(fold b D; lia)) as (HS & _ & _). cbv zeta in HS. fold b D in HS.
+    destruct HS as (_ & _ & _ & _ & HS5 & _). cbv zeta in HS5. cbn [gc_b gc_dst] in HS5.
+    split.
+    + intros c Hc. rewrite E2. replace (Nat.eqb c (S D)) with false by (symmetry; apply Nat.eqb_neq; lia).
+      destruct (Nat.eqb_spec c D) as [->|Hne]; [|apply S1; lia]. rewrite end_gc_disk; [exact S2|apply (G4 D HDlt)|exact G7|exact X1].
+    + rewrite E2, Nat.eqb_refl.
+      assert (HSlt : (S D < b_head b0)%nat) by lia.
+      destruct (begin_gc_chunk_facts (chunk_at b (S D)) (Nat.eqb (S D) src) (G4 (S D) HSlt)) as (B1 & B2 & B3 & B4 & B5). cbv zeta in B1, B2, B3, B4, B5.
+      rewrite below_append by exact B2.
+      assert (Hb : below (begin_gc_chunk (chunk_at b (S D)) (Nat.eqb (S D) src)) = []).
+      { unfold below. rewrite B3, B5. destruct (Nat.eqb_spec (S D) src) as [Es|Hns].
+        - apply filter_nil_all. intros x _. pose proof (dsize_pos (snd x)). unfold rend. lia.
+        - destruct (G9 (S D) ltac:(lia)) as [Hd _]. now rewrite Hd. }
+      rewrite Hb. cbn [app]. repeat constructor.
+Qed.
+
+Lemma gs_clear st src stat' : (gc_dst st < src)%nat -> GS st -> GS (mkGC (clear_chunk (gc_b st) src) (gc_dst st) stat').
+Proof.
+  intros Hlt (S1 & S2). unfold GS. cbn [gc_b gc_dst]. unfold clear_chunk. split.
+  - intros c Hc. rewrite chunk_at_set_other by lia. auto.
+  - rewrite chunk_at_set_other by lia. exact S2.
+Qed.
+
+Definition GA (st : gcst) (src : nat) (R : list (N * drec)) : Prop := GI cf hf K b0 st src R /\ GX b0 st /\ GC2 st /\ GP st /\ GS st.
 
 Lemma ga_records src : forall recs st, GA st src recs -> GA (fold_left (gc_record cf hf begin_ src) recs st) src [].
 Proof.
-  induction recs as [|e recs IH]; intros st HA; cbn [fold_left]; [exact HA|]. destruct HA as (HG & HX & H2 & HP).
+  induction recs as [|e recs IH]; intros st HA; cbn [fold_left]; [exact HA|]. destruct HA as (HG & HX & H2 & HP & HS).
   apply IH. split; [now apply (gc_record_inv cf hf K hf_inj cap_pos b0 begin_ st src e recs)|].
-  split; [now apply (gx_record cf hf K cap_pos b0 begin_ st src e recs)|]. split; [now apply (gc2_record st src e recs)|now apply (gp_record st src e recs)].
+  split; [now apply (gx_record cf hf K cap_pos b0 begin_ st src e recs)|]. split; [now apply (gc2_record st src e recs)|].
+  split; [now apply (gp_record st src e recs)|now apply (gs_record st src e recs)].
 Qed.
 
 Lemma gc2_clear st src stat' : gc_dst st <> src -> GC2 st -> GC2 (mkGC (clear_chunk (gc_b st) src) (gc_dst st) stat').
@@ -1038,31 +1181,36 @@ Lemma ga_file_step st src : GA st src (k_disk (chunk_at (gc_b st) src)) -> (src 
   let st' := gc_file cf hf begin_ st src in
   GA st' src [] /\ (gc_dst st' <> src -> k_disk (chunk_at (gc_b st') src) = [] /\ k_size (chunk_at (gc_b st') src) = 0).
 Proof.
-  intros (HG & HX & H2 & HP) Hs. pose proof (gc_file_step cf hf K hf_inj cap_pos b0 begin_ st src HG HX) as (R1 & R2 & R3). cbv zeta in *.
+  intros (HG & HX & H2 & HP & HS) Hs. pose proof (gc_file_step cf hf K hf_inj cap_pos b0 begin_ st src HG HX) as (R1 & R2 & R3). cbv zeta in *.
   split; [|exact R3]. split; [exact R1|]. split; [exact R2|]. clear R1 R2 R3.
-  unfold gc_file. destruct (k_size (chunk_at (gc_b st) src) =? 0) eqn:Ez; [split; assumption|].
+  unfold gc_file. destruct (k_size (chunk_at (gc_b st) src) =? 0) eqn:Ez; [split; [|split]; assumption|].
   set (b := gc_b st) in *. set (recs := k_disk (chunk_at b src)) in *.
   set (st1 := mkGC (clear_hint_chunk b src) (gc_dst st) (gc_stat st)).
   assert (HA1 : GA st1 src recs).
-  { split; [|split; [|split]].
+  { split; [|split; [|split; [|split]]].
     - apply (gi_frame cf hf K b0 (clear_hint_chunk b src) (gc_dst st) (gc_stat st) st src recs eq_refl); [reflexivity| |exact HG]. apply iok_clear. apply HG.
     - apply (gx_frame b0 (clear_hint_chunk b src) (gc_dst st) (gc_stat st) st eq_refl); [reflexivity|exact HX].
     - apply (gc2_frame (clear_hint_chunk b src) (gc_dst st) (gc_stat st) st eq_refl); [reflexivity|exact H2].
-    - apply (gp_frame (clear_hint_chunk b src) (gc_dst st) (gc_stat st) st eq_refl); [reflexivity|exact HP]. }
-  destruct (ga_records src recs st1 HA1) as (_ & _ & H22 & HP2).
+    - apply (gp_frame (clear_hint_chunk b src) (gc_dst st) (gc_stat st) st eq_refl); [reflexivity|exact HP].
+    - apply (gs_frame (clear_hint_chunk b src) (gc_dst st) (gc_stat st) st eq_refl); [reflexivity|exact HS]. }
+  destruct (ga_records src recs st1 HA1) as (HG2 & _ & H22 & HP2 & HS2).
   set (st2 := fold_left (gc_record cf hf begin_ src) recs st1) in *.
   change gc_truncates_after_inplace with false. cbn [andb].
   destruct (Nat.eqb_spec src (gc_dst st2)) as [E|Hne].
   - set (b4 := if Nat.leb (b_nextgc (gc_b st2)) (S src) then set_nextgc (gc_b st2) (S src) else gc_b st2).
     assert (Hc4 : core b4 = core (gc_b st2)) by (unfold b4; destruct (Nat.leb _ _); reflexivity).
     split; [apply (gc2_frame b4 (gc_dst st2) (gc_stat st2) st2 eq_refl Hc4 H22)|].
-    apply (gp_frame b4 (gc_dst st2) (gc_stat st2) st2 eq_refl); [intros c; apply (core_chunk_at _ _ c Hc4)|exact HP2].
+    split; [apply (gp_frame b4 (gc_dst st2) (gc_stat st2) st2 eq_refl); [intros c; apply (core_chunk_at _ _ c Hc4)|exact HP2]|].
+    apply (gs_frame b4 (gc_dst st2) (gc_stat st2) st2 eq_refl); [intros c; apply (core_chunk_at _ _ c Hc4)|exact HS2].
   - set (b3 := clear_chunk (gc_b st2) src).
     set (b4 := if Nat.leb (b_nextgc b3) (S src) then set_nextgc b3 (S src) else b3).
     assert (Hc4 : core b4 = core b3) by (unfold b4; destruct (Nat.leb _ _); reflexivity).
     pose proof (gc2_clear st2 src (gc_stat st2) ltac:(congruence) H22) as H23. pose proof (gp_clear st2 src (gc_stat st2) Hs HP2) as HP3. fold b3 in H23, HP3.
+    assert (HDs : (gc_dst st2 < src)%nat) by (destruct HG2 as (_ & _ & _ & _ & G5 & _); cbv zeta in G5; lia).
+    pose proof (gs_clear st2 src (gc_stat st2) HDs HS2) as HS3. fold b3 in HS3.
     split; [apply (gc2_frame b4 (gc_dst st2) (gc_stat st2) (mkGC b3 (gc_dst st2) (gc_stat st2)) eq_refl Hc4 H23)|].
-    apply (gp_frame b4 (gc_dst st2) (gc_stat st2) (mkGC b3 (gc_dst st2) (gc_stat st2)) eq_refl); [intros c; apply (core_chunk_at _ _ c Hc4)|exact HP3].
+    split; [apply (gp_frame b4 (gc_dst st2) (gc_stat st2) (mkGC b3 (gc_dst st2) (gc_stat st2)) eq_refl); [intros c; apply (core_chunk_at _ _ c Hc4)|exact HP3]|].
+    apply (gs_frame b4 (gc_dst st2) (gc_stat st2) (mkGC b3 (gc_dst st2) (gc_stat st2)) eq_refl); [intros c; apply (core_chunk_at _ _ c Hc4)|exact HS3].
 Qed.
 
 Lemma ga_files : forall n src st,
@@ -1074,13 +1222,114 @@ Lemma ga_files : forall n src st,
 Proof.
   induction n as [|n IH]; intros src st HA Hlt Hsp Hs; cbn [seq fold_left]; cbv zeta.
   - rewrite Nat.add_0_r. apply (ga_file_step st src HA). destruct Hs; [left; lia|now right].
-  - destruct (ga_file_step st src HA ltac:(destruct Hs; [left; lia|now right])) as [(H1 & H2 & H3 & H4) H5]. cbv zeta in H1, H2, H3, H4, H5.
+  - destruct (ga_file_step st src HA ltac:(destruct Hs; [left; lia|now right])) as [(H1 & H2 & H3 & H4 & H4s) H5]. cbv zeta in H1, H2, H3, H4, H4s, H5.
     set (st1 := gc_file cf hf begin_ st src) in *.
     pose proof (gi_next cf hf K cap_pos b0 st1 src H1 H5 ltac:(lia) (Hsp (S src) ltac:(lia))) as HGn.
     replace (src + S n)%nat with (S src + n)%nat by lia.
-    apply (IH (S src) st1); [split; [exact HGn|split; [exact H2|split; [exact H3|exact H4]]]|lia|exact Hsp|destruct Hs; [left; lia|now right]].
+    apply (IH (S src) st1); [split; [exact HGn|split; [exact H2|split; [exact H3|split; [exact H4|exact H4s]]]]|lia|exact Hsp|destruct Hs; [left; lia|now right]].
 Qed.
 End GV2b.
+
+(* ================================================================ C18: a second pass releases nothing *)
+Lemma gc_record_keeps cf hf begin_ src st off r :
+  cur_or_tomb hf begin_ (gc_b st) src (off, r) ->
+  let st' := gc_record cf hf begin_ src st (off, r) in
+  g_released (gc_stat st') = g_released (gc_stat st) /\ g_size_released (gc_stat st') = g_size_released (gc_stat st).
+Proof.
+  intros Hc. cbv zeta. unfold gc_record. unfold cur_or_tomb in Hc. cbn [fst snd] in Hc.
+  destruct Hc as [(s & Hs & Hp)|(Hn & Hv & Hb)].
+  - rewrite Hs, Hp. replace (pos_eqb (mkPos src off) (mkPos src off)) with true by (symmetry; now apply pos_eqb_eq). cbn [negb].
+    destruct (c_filemax cf <? _); destruct (append_gc _ _ r); split; reflexivity.
+  - rewrite Hn. replace (Nat.ltb 0 begin_) with true by (symmetry; now apply Nat.ltb_lt). replace (d_ver r <? 0)%Z with true by (symmetry; apply Z.ltb_lt; exact Hv).
+    cbn [andb negb]. destruct (c_filemax cf <? _); destruct (append_gc _ _ r); split; reflexivity.
+Qed.
+
+Section GV2c.
+Variable cf : cfg.
+Variable hf : bytes -> N.
+Variable K : list bytes.
+Hypothesis hf_inj : forall k1 k2, In k1 K -> In k2 K -> hf k1 = hf k2 -> k1 = k2.
+Hypothesis cap_pos : 0 < c_splitcap cf.
+Variable b0 : bucket.
+Variable begin_ end_ : nat.
+
+(* every record still to be processed is current, and nothing has been released so far *)
+Definition GR (st : gcst) (src : nat) (R : list (N * drec)) : Prop :=
+  (forall e, In e R -> cur_or_tomb hf begin_ (gc_b st) src e) /\
+  (forall c e, (src < c <= end_)%nat -> In e (k_disk (chunk_at b0 c)) -> cur_or_tomb hf begin_ (gc_b st) c e) /\
+  g_released (gc_stat st) = 0 /\ g_size_released (gc_stat st) = 0.
+
+Lemma gr_frame b' D stat' st src R : gc_stat st = stat' -> (forall h, tree_get_slot b' h = tree_get_slot (gc_b st) h) -> GR st src R -> GR (mkGC b' D stat') src R.
+Proof.
+  intros <- Ht (R1 & R2 & R3 & R4). unfold GR, cur_or_tomb. cbn [gc_b gc_stat]. split; [|split; [|split; assumption]].
+  - intros e He. rewrite Ht. exact (R1 e He).
+  - intros c e Hc He. rewrite Ht. exact (R2 c e Hc He).
+Qed.
+
+Lemma gr_record st src e R' : GI cf hf K b0 st src (e :: R') -> GR st src (e :: R') -> GR (gc_record cf hf begin_ src st e) src R'.
+Proof.
+  intros HG (R1 & R2 & R3 & R4). pose proof HG as (_ & _ & _ & _ & _ & _ & _ & _ & _ & _ & _ & G12 & _). cbv zeta in G12.
+  destruct e as [off r]. pose proof (R1 (off, r) (or_introl eq_refl)) as Hcur.
+  destruct (gc_record_keeps cf hf begin_ src st off r Hcur) as [K1 K2]. cbv zeta in K1, K2.
+  destruct (gc_record_tree cf hf begin_ src st (off, r)) as [T1 T2]. cbv zeta in T1, T2. cbn [snd] in T1, T2.
+  set (st' := gc_record cf hf begin_ src st (off, r)) in *. set (h := hf (d_key r)) in *.
+  assert (Hstep : forall c e', cur_or_tomb hf begin_ (gc_b st) c e' -> (c = src -> fst e' <> off) -> cur_or_tomb hf begin_ (gc_b st') c e').
+  { intros c e' Hc' Hoff. unfold cur_or_tomb in *. cbn [fst snd] in Hcur.
+    destruct (N.eq_dec (hf (d_key (snd e'))) h) as [Eh|Hne]; [|rewrite (T1 _ Hne); exact Hc'].
+    rewrite Eh in *. fold h in Hcur. destruct Hcur as [(s & Hs & Hp)|(Hn & Hv & Hb)].
+    - destruct Hc' as [(s' & Hs' & Hp')|(Hn' & _)]; [|congruence]. rewrite Hs in Hs'. injection Hs' as <-. rewrite Hp in Hp'. injection Hp' as E1 E2.
+      exfalso. apply Hoff; congruence.
+    - destruct Hc' as [(s' & Hs' & _)|(Hn' & Hv' & Hb')]; [congruence|]. right. split; [now apply T2|]. split; assumption. }
+  split; [|split; [|split; congruence]].
+  - intros e' He'. apply Hstep; [apply R1; now right|]. intros _.
+    unfold spaced in G12. inversion G12 as [|? ? _ Hx]; subst. rewrite Forall_forall in Hx. specialize (Hx e' He'). cbn [fst snd] in Hx. pose proof (dsize_pos r). lia.
+  - intros c e' Hc He'. apply Hstep; [now apply R2|]. intros E. lia.
+Qed.
+
+Lemma gr_records src : forall recs st, GI cf hf K b0 st src recs -> GR st src recs -> GR (fold_left (gc_record cf hf begin_ src) recs st) src [].
+Proof.
+  induction recs as [|e recs IH]; intros st HG HR; cbn [fold_left]; [exact HR|].
+  apply IH; [now apply (gc_record_inv cf hf K hf_inj cap_pos b0 begin_ st src e recs)|now apply gr_record].
+Qed.
+
+Lemma gr_file_step st src : GI cf hf K b0 st src (k_disk (chunk_at (gc_b st) src)) -> GR st src (k_disk (chunk_at (gc_b st) src)) ->
+  GR (gc_file cf hf begin_ st src) src [].
+Proof.
+  intros HG HR. unfold gc_file. destruct (k_size (chunk_at (gc_b st) src) =? 0) eqn:Ez.
+  { destruct HR as (_ & R2 & R3 & R4). split; [intros e []|]. split; [exact R2|split; assumption]. }
+  set (b := gc_b st) in *. set (recs := k_disk (chunk_at b src)) in *.
+  set (st1 := mkGC (clear_hint_chunk b src) (gc_dst st) (gc_stat st)).
+  assert (HG1 : GI cf hf K b0 st1 src recs).
+  { apply (gi_frame cf hf K b0 (clear_hint_chunk b src) (gc_dst st) (gc_stat st) st src recs eq_refl); [reflexivity| |exact HG]. apply iok_clear. apply HG. }
+  assert (HR1 : GR st1 src recs) by (apply (gr_frame (clear_hint_chunk b src) (gc_dst st) (gc_stat st) st src recs eq_refl); [reflexivity|exact HR]).
+  pose proof (gr_records src recs st1 HG1 HR1) as HR2.
+  set (st2 := fold_left (gc_record cf hf begin_ src) recs st1) in *.
+  change gc_truncates_after_inplace with false. cbn [andb].
+  destruct (Nat.eqb src (gc_dst st2)).
+  - apply (gr_frame _ (gc_dst st2) (gc_stat st2) st2 src [] eq_refl); [|exact HR2]. intros h. destruct (Nat.leb _ _); reflexivity.
+  - apply (gr_frame _ (gc_dst st2) (gc_stat st2) st2 src [] eq_refl); [|exact HR2]. intros h. destruct (Nat.leb _ _); reflexivity.
+Qed.
+
+Lemma gr_files : forall n src st,
+  GI cf hf K b0 st src (k_disk (chunk_at (gc_b st) src)) -> GX b0 st -> GR st src (k_disk (chunk_at (gc_b st) src)) ->
+  (src + n < b_head b0)%nat -> (src + n <= end_)%nat ->
+  (forall c, (c < b_head b0)%nat -> spaced (k_disk (chunk_at b0 c))) ->
+  GR (fold_left (gc_file cf hf begin_) (seq src (S n)) st) (src + n)%nat [].
+Proof.
+  induction n as [|n IH]; intros src st HG HX HR Hlt Hle Hsp; cbn [seq fold_left].
+  - rewrite Nat.add_0_r. now apply gr_file_step.
+  - destruct (gc_file_step cf hf K hf_inj cap_pos b0 begin_ st src HG HX) as (H1 & H2 & H3). cbv zeta in H1, H2, H3.
+    pose proof (gr_file_step st src HG HR) as HR1.
+    set (st1 := gc_file cf hf begin_ st src) in *.
+    pose proof (gi_next cf hf K cap_pos b0 st1 src H1 H3 ltac:(lia) (Hsp (S src) ltac:(lia))) as HGn.
+    replace (src + S n)%nat with (S src + n)%nat by lia.
+    apply (IH (S src) st1 HGn H2); [|lia|lia|exact Hsp].
+    destruct HR1 as (_ & R2 & R3 & R4). destruct H1 as (_ & _ & G3 & _). cbv zeta in G3.
+    split; [|split; [|split; assumption]].
+    + intros e He. rewrite G3 in He by (right; lia). apply R2; [lia|exact He].
+    + intros c e Hc He. apply R2; [lia|exact He].
+Qed.
+End GV2c.
 
 Lemma pick_dst_gap cf b begin_ : forall n, (n <= begin_)%nat ->
   (forall c, (n <= c < begin_)%nat -> k_size (chunk_at b c) = 0) ->
@@ -1219,6 +1468,70 @@ Proof.
     destruct (tree_get_slot be (hf k)) as [s|] eqn:Es; [|reflexivity]. destruct (Hslot3 _ s Es) as (r0 & L & L3). now rewrite L, L3.
 Qed.
 
+(* the state a pass starts its loop in *)
+Lemma gc_pass_start b m begin_ end_ :
+  Rel hf K b m -> GPre b -> (begin_ <= end_ < b_head b)%nat ->
+  let b1 := before_bucket cf b false in let dst0 := pick_dst cf b1 begin_ begin_ in
+  let st0 := mkGC (begin_gc_writing b1 dst0 begin_) dst0 gc0 in
+  GI cf hf K b st0 begin_ (k_disk (chunk_at (gc_b st0) begin_)) /\ GX b st0 /\
+  (forall c, k_disk (chunk_at (gc_b st0) c) = k_disk (chunk_at b c)) /\ (forall h, tree_get_slot (gc_b st0) h = tree_get_slot b h).
+Proof.
+  intros HR (P2 & P3 & P4) Hrange. pose proof HR as [((Hok & Habove) & Hct & Hslots) Habs].
+  cbv zeta. set (H0 := b_head b).
+  set (b1 := before_bucket cf b false).
+  assert (Hcore1 : core b1 = core b) by reflexivity.
+  assert (Hhint1 : b_hints b1 = b_hints b) by reflexivity.
+  assert (Hca1 : forall c, chunk_at b1 c = chunk_at b c) by (intros c; reflexivity).
+  destruct (pick_dst_gap cf b1 begin_ begin_ (le_n _) ltac:(intros c Hc; lia)) as [Hd1 Hd2]. cbv zeta in Hd1, Hd2.
+  set (dst0 := pick_dst cf b1 begin_ begin_) in *.
+  rewrite begin_gc_eq. set (kd0 := chunk_at b1 dst0).
+  assert (Hdlt : (dst0 < H0)%nat) by (unfold H0; lia).
+  destruct (begin_gc_chunk_facts kd0 (Nat.eqb dst0 begin_)) as (B1 & B2 & B3 & B4 & B5); [apply (P2 dst0 Hdlt)|]. cbv zeta in B1, B2, B3, B4, B5.
+  set (b2 := set_chunk b1 dst0 (begin_gc_chunk kd0 (Nat.eqb dst0 begin_))).
+  assert (Hca2 : forall c, chunk_at b2 c = if Nat.eqb c dst0 then begin_gc_chunk kd0 (Nat.eqb dst0 begin_) else chunk_at b c).
+  { intros c. unfold b2. destruct (Nat.eqb_spec c dst0) as [->|Hne]; [apply chunk_at_set_same|]. rewrite chunk_at_set_other by congruence. apply Hca1. }
+  assert (Hdisk2 : forall c, k_disk (chunk_at b2 c) = k_disk (chunk_at b c)).
+  { intros c. rewrite Hca2. destruct (Nat.eqb_spec c dst0) as [->|]; [exact B3|reflexivity]. }
+  assert (Hlog2 : forall p, log_find b2 p = log_find b p).
+  { intros p. unfold log_find, all_recs. rewrite Hdisk2, Hca2. destruct (Nat.eqb_spec (p_chunk p) dst0) as [E|]; [|reflexivity].
+    rewrite (proj1 B1), E. fold kd0. now rewrite (proj1 (proj1 (P2 dst0 Hdlt))). }
+  set (st0 := mkGC b2 dst0 gc0).
+  assert (HW0 : k_whead (chunk_at b2 dst0) = if Nat.eqb dst0 begin_ then 0 else k_size kd0) by (rewrite Hca2, Nat.eqb_refl; exact B5).
+  (* the invariant holds when the pass starts *)
+  assert (HG0 : GI cf hf K b st0 begin_ (k_disk (chunk_at (gc_b st0) begin_))).
+  { unfold GI. cbn [gc_b gc_dst st0]. fold H0. rewrite HW0.
+    split; [reflexivity|]. split; [exact Hct|].
+    split; [intros c Hc; rewrite Hca2; replace (Nat.eqb c dst0) with false by (symmetry; apply Nat.eqb_neq; unfold H0 in *; lia); reflexivity|].
+    split; [intros c Hc; rewrite Hca2; destruct (Nat.eqb c dst0); [exact B1|apply (P2 c Hc)]|].
+    split; [exact Hd1|]. split; [unfold H0; lia|].
+    split; [rewrite Hca2, Nat.eqb_refl; exact B2|].
+    split; [rewrite Hca2, Nat.eqb_refl, B4; destruct (Nat.eqb dst0 begin_); lia|].
+    split.
+    { intros c Hc. rewrite Hca2. replace (Nat.eqb c dst0) with false by (symmetry; apply Nat.eqb_neq; lia).
+      pose proof (Hd2 c Hc) as Hs. rewrite Hca1 in Hs. split; [|exact Hs]. apply gchunk_size0'; [apply (P2 c); unfold H0; lia|exact Hs]. }
+    split; [auto|]. split; [intros E e He; rewrite E, Nat.eqb_refl; lia|].
+    split; [rewrite Hdisk2; apply (P2 begin_); unfold H0; lia|].
+    split; [intros c e Hc He; rewrite Hdisk2 in He; now apply (P3 c)|].
+    split; [apply (iok_hints_same hf K b); [reflexivity|exact P4]|]. split.
+    - intros h s Hs. change (tree_get_slot b2 h) with (tree_get_slot b h) in Hs.
+      destruct (Hslots h s Hs) as (r0 & L & A1 & A2 & A3 & A4 & A5). exists r0. rewrite Hlog2.
+      repeat (split; [assumption|]).
+      destruct (Nat.eq_dec (p_chunk (s_pos s)) begin_) as [E|Hnb].
+      + right. right. split; [exact E|]. rewrite Hdisk2.
+        rewrite log_find_gchunk in L by (rewrite E; apply (P2 begin_); unfold H0; lia). rewrite E in L. now apply find_off_some_in.
+      + destruct (Nat.eq_dec (p_chunk (s_pos s)) dst0) as [E|Hnd]; [|left; now split].
+        right. left. split; [exact E|]. replace (Nat.eqb dst0 begin_) with false by (symmetry; apply Nat.eqb_neq; congruence).
+        rewrite log_find_gchunk in L by (rewrite E; apply (P2 dst0 Hdlt)). rewrite E in L. apply find_off_some_in in L.
+        destruct (P2 dst0 Hdlt) as [(_ & _ & _ & Hsz) _]. rewrite Forall_forall in Hsz. specialize (Hsz _ L). unfold rend in Hsz. exact Hsz.
+    - intros k Hk. unfold abs. change (tree_get_slot b2 (hf k)) with (tree_get_slot b (hf k)).
+      destruct (tree_get_slot b (hf k)); [now rewrite Hlog2|reflexivity]. }
+  assert (HX0 : GX b st0).
+  { unfold GX. cbn [gc_b gc_dst st0]. fold H0. split.
+    - rewrite Hca2, Nat.eqb_refl. unfold begin_gc_chunk. destruct (Nat.eqb dst0 begin_); cbn [k_rewriting k_whead k_size]; [now left|now right].
+    - intros c Hc Hne. rewrite Hca2. replace (Nat.eqb c dst0) with false by (symmetry; apply Nat.eqb_neq; exact Hne). apply Hok. }
+  split; [exact HG0|]. split; [exact HX0|]. split; [exact Hdisk2|]. intros h. reflexivity.
+Qed.
+
 (* C18: what the files written by the pass contain afterwards *)
 Theorem gc_pass_reclaims b m begin_ end_ :
   Rel hf K b m -> GPre b -> (begin_ <= end_ < b_head b)%nat ->
@@ -1231,7 +1544,8 @@ Theorem gc_pass_reclaims b m begin_ end_ :
     (forall c, (D < c <= end_)%nat -> k_disk (chunk_at b' c) = [] /\ k_size (chunk_at b' c) = 0) /\
     (forall e, rend e <= W0 -> (In e (k_disk (chunk_at b' dst0)) <-> In e (k_disk (chunk_at b dst0)))) /\
     (forall e, In e (k_disk (chunk_at b' dst0)) -> rend e <= W0 \/ W0 <= fst e) /\
-    (forall c, (c < b_head b)%nat -> gchunk (chunk_at b' c)).
+    (forall c, (c < b_head b)%nat -> gchunk (chunk_at b' c)) /\
+    GPre b'.
 Proof.
   intros HR (P2 & P3 & P4) Hrange. pose proof HR as [((Hok & Habove) & Hct & Hslots) Habs].
   cbv zeta. unfold gc_pass. cbn [fst]. set (H0 := b_head b).
@@ -1297,12 +1611,17 @@ Proof.
     destruct (P2 dst0 Hdlt) as [(_ & _ & _ & Hsz) _]. rewrite Forall_forall in Hsz. exact (Hsz e He). }
   assert (Hs0 : (dst0 < begin_)%nat \/ W0 = 0).
   { unfold W0. destruct (Nat.eqb_spec dst0 begin_) as [E|Hne]; [now right|left; lia]. }
-  destruct (ga_files cf hf K hf_inj cap_pos b begin_ dst0 W0 (end_ - begin_) begin_ st0) as [(HGe & HXe & HCe & HPe) Hlast].
-  { split; [exact HG0|]. split; [exact HX0|]. split; [exact HC0|exact HP0]. }
+  assert (HS0 : GS dst0 st0).
+  { unfold GS. cbn [gc_b gc_dst st0]. split; [intros c Hc; lia|]. unfold below. rewrite Hdisk2, HW0'. unfold W0.
+    destruct (P2 dst0 Hdlt) as [(_ & _ & _ & Hsz) Hsp]. destruct (Nat.eqb dst0 begin_).
+    - rewrite filter_nil_all; [constructor|]. intros x _. pose proof (dsize_pos (snd x)). unfold rend. lia.
+    - rewrite filter_id_all; [exact Hsp|]. intros x Hx. rewrite Forall_forall in Hsz. specialize (Hsz x Hx). cbv beta in Hsz. apply N.leb_le. exact Hsz. }
+  destruct (ga_files cf hf K hf_inj cap_pos b begin_ dst0 W0 (end_ - begin_) begin_ st0) as [(HGe & HXe & HCe & HPe & HSe) Hlast].
+  { split; [exact HG0|]. split; [exact HX0|]. split; [exact HC0|]. split; [exact HP0|exact HS0]. }
   { fold H0. lia. }
   { intros c Hc. apply (P2 c Hc). }
   { exact Hs0. }
-  cbv zeta in HGe, HXe, HCe, HPe, Hlast. replace (S (end_ - begin_)) with (S end_ - begin_)%nat in HGe, HXe, HCe, HPe, Hlast by lia. fold b1 dst0 in HGe, HXe, HCe, HPe, Hlast.
+  cbv zeta in HGe, HXe, HCe, HPe, HSe, Hlast. replace (S (end_ - begin_)) with (S end_ - begin_)%nat in HGe, HXe, HCe, HPe, HSe, Hlast by lia. fold b1 dst0 in HGe, HXe, HCe, HPe, HSe, Hlast.
   replace (begin_ + (end_ - begin_))%nat with end_ in HGe, Hlast by lia.
   set (st := fold_left (gc_file cf hf begin_) (seq begin_ (S end_ - begin_)) st0) in *.
   destruct HGe as (G1 & G2 & G3 & G4 & G5 & G6 & G7 & G8 & G9 & G10 & G11 & G12 & G13 & G14 & G15 & G16). cbv zeta in *.
@@ -1333,7 +1652,24 @@ Proof.
     rewrite E. split; [apply E4|]. destruct e as [o r0]. intros Hin. apply E3; [exact Hin|]. specialize (Q2 (eq_sym E)). rewrite E in Q2. unfold rend in He. cbn [fst snd] in He. lia. }
   split.
   { intros e Hin. rewrite Hch in Hin. apply Q4. destruct (Nat.eqb_spec dst0 D) as [E|Hne]; [|exact Hin]. rewrite E. now apply E4. }
-  intros c Hc. rewrite Hch. destruct (Nat.eqb c D); [apply E1|apply (G4 c Hc)].
+  assert (Hgch : forall c, (c < H0)%nat -> gchunk (chunk_at (trydump b3 D true) c)) by (intros c Hc; rewrite Hch; destruct (Nat.eqb c D); [apply E1|apply (G4 c Hc)]).
+  split; [exact Hgch|].
+  (* the bucket is again one a GC pass can start on *)
+  destruct HSe as [S1 S2]. fold be D in S1, S2.
+  destruct (gc_pass_touches_only cf hf b begin_ end_ false) as (_ & _ & [_ Hunt]). cbv zeta in Hunt. unfold gc_pass in Hunt. cbn [fst] in Hunt.
+  fold b1 dst0 in Hunt. rewrite begin_gc_eq in Hunt. fold kd0 b2 st0 st be D in Hunt. rewrite end_gc_eq in Hunt. fold b3 in Hunt.
+  assert (Hhd : b_head (trydump b3 D true) = H0) by (rewrite (core_head _ _ Hcore); exact G1).
+  split; [|split].
+  - intros c Hc. rewrite Hhd in Hc. split; [apply (Hgch c Hc)|].
+    destruct (Nat.lt_ge_cases c dst0) as [Hlo|Hge]; [rewrite Hunt by lia; apply (P2 c Hc)|].
+    destruct (Nat.lt_ge_cases end_ c) as [Hhi|Hle]; [rewrite Hunt by lia; apply (P2 c Hc)|].
+    rewrite Hch. destruct (Nat.eqb_spec c D) as [->|Hne].
+    + rewrite end_gc_disk; [exact S2|apply (G4 D HDlt)|exact G7|exact X1].
+    + destruct (Nat.lt_ge_cases c D) as [Hlt|Hgt]; [apply S1; lia|].
+      destruct (Nat.eq_dec c end_) as [->|Hne2]; [rewrite (proj1 (Hlast ltac:(lia))); constructor|].
+      rewrite (proj1 (G9 c ltac:(lia))). constructor.
+  - intros c e Hc Hin. rewrite Hhd in Hc. rewrite Hch in Hin. apply (G13 c e Hc). destruct (Nat.eqb_spec c D) as [->|Hne]; [now apply E4|exact Hin].
+  - apply iok_trydump. apply (iok_hints_same hf K be); [reflexivity|exact G14].
 Qed.
 
 (* the files of the collected range themselves *)
@@ -1344,7 +1680,7 @@ Corollary gc_pass_range_files b m begin_ end_ :
     cur_or_tomb hf begin_ b' c e /\ find_off (k_disk (chunk_at b' c)) (fst e) = Some (snd e).
 Proof.
   intros HR HP Hrange. cbv zeta. intros c e Hc Hin.
-  destruct (gc_pass_reclaims b m begin_ end_ HR HP Hrange) as (D & (Hd1 & Hd2) & _ & Hcur & Hemp & _ & _ & Hg). cbv zeta in *.
+  destruct (gc_pass_reclaims b m begin_ end_ HR HP Hrange) as (D & (Hd1 & Hd2) & _ & Hcur & Hemp & _ & _ & Hg & _). cbv zeta in *.
   split.
   - destruct (Nat.le_gt_cases c D) as [Hle|Hgt].
     + apply Hcur; [lia|exact Hin|]. intros E. replace (Nat.eqb (pick_dst cf (before_bucket cf b false) begin_ begin_) begin_) with true by (symmetry; apply Nat.eqb_eq; lia). lia.
@@ -1364,6 +1700,57 @@ Proof.
   destruct (gc_pass_range_files b m begin_ end_ HR HP Hrange c2 e2 H2 I2) as [[(s2 & T2 & Q2)|[N2 _]] F2]; [|rewrite <- Hk in N2; congruence].
   cbv zeta in *. rewrite <- Hk, T1 in T2. injection T2 as <-. rewrite Q1 in Q2. injection Q2 as Ec Eo. split; [exact Ec|].
   subst c2. rewrite <- Eo in F2. rewrite F1 in F2. destruct e1, e2. cbn [fst snd] in *. injection F2 as <-. now subst.
+Qed.
+
+(* passes can follow one another: the result is again a state a pass can start on *)
+Corollary gc_pass_again_ok b m begin_ end_ :
+  Rel hf K b m -> GPre b -> (begin_ <= end_ < b_head b)%nat ->
+  let b' := fst (gc_pass cf hf b begin_ end_ false) in Rel hf K b' m /\ GPre b' /\ b_head b' = b_head b.
+Proof.
+  intros HR HP Hrange. cbv zeta. split; [now apply gc_pass_view|]. split.
+  - destruct (gc_pass_reclaims b m begin_ end_ HR HP Hrange) as (D & _ & _ & _ & _ & _ & _ & _ & Hg). exact Hg.
+  - destruct (gc_pass_touches_only cf hf b begin_ end_ false) as (_ & _ & [Hh _]). exact Hh.
+Qed.
+
+(* any number of passes, each over its own range *)
+Definition gc_passes (cf : cfg) (hf : bytes -> N) (b : bucket) (ranges : list (nat * nat)) : bucket :=
+  fold_left (fun bb r => fst (gc_pass cf hf bb (fst r) (snd r) false)) ranges b.
+
+Corollary gc_passes_view : forall ranges b m,
+  Rel hf K b m -> GPre b -> Forall (fun r => (fst r <= snd r < b_head b)%nat) ranges ->
+  Rel hf K (gc_passes cf hf b ranges) m /\ GPre (gc_passes cf hf b ranges) /\ b_head (gc_passes cf hf b ranges) = b_head b.
+Proof.
+  induction ranges as [|[x y] rs IH]; intros b m HR HP Hall; unfold gc_passes; cbn [fold_left]; [split; [exact HR|split; [exact HP|reflexivity]]|].
+  inversion Hall as [|? ? Hxy Hrest]; subst. cbn [fst snd] in Hxy |- *.
+  destruct (gc_pass_again_ok b m x y HR HP Hxy) as (HR' & HP' & Hh'). cbv zeta in HR', HP', Hh'.
+  destruct (IH (fst (gc_pass cf hf b x y false)) m HR' HP') as (I1 & I2 & I3).
+  { eapply Forall_impl; [|exact Hrest]. cbv beta. intros r Hr. rewrite Hh'. exact Hr. }
+  unfold gc_passes in I1, I2, I3. split; [exact I1|]. split; [exact I2|]. rewrite I3. exact Hh'.
+Qed.
+
+(* C18: running the same pass again releases nothing *)
+Theorem gc_pass_twice b m begin_ end_ :
+  Rel hf K b m -> GPre b -> (begin_ <= end_ < b_head b)%nat ->
+  let b' := fst (gc_pass cf hf b begin_ end_ false) in
+  let gs := snd (gc_pass cf hf b' begin_ end_ false) in
+  g_released gs = 0 /\ g_size_released gs = 0.
+Proof.
+  intros HR HP Hrange. cbv zeta.
+  destruct (gc_pass_again_ok b m begin_ end_ HR HP Hrange) as (HR' & HP' & Hh'). cbv zeta in HR', HP', Hh'.
+  pose proof (gc_pass_range_files b m begin_ end_ HR HP Hrange) as Hcur. cbv zeta in Hcur.
+  set (b' := fst (gc_pass cf hf b begin_ end_ false)) in *.
+  assert (Hrange' : (begin_ <= end_ < b_head b')%nat) by lia.
+  destruct (gc_pass_start b' m begin_ end_ HR' HP' Hrange') as (HG0 & HX0 & Hd0 & Ht0). cbv zeta in HG0, HX0, Hd0, Ht0.
+  unfold gc_pass at 1. cbn [snd].
+  set (st0 := mkGC (begin_gc_writing (before_bucket cf b' false) (pick_dst cf (before_bucket cf b' false) begin_ begin_) begin_)
+                   (pick_dst cf (before_bucket cf b' false) begin_ begin_) gc0) in *.
+  assert (HR0 : GR hf b' begin_ end_ st0 begin_ (k_disk (chunk_at (gc_b st0) begin_))).
+  { unfold GR, cur_or_tomb. split; [|split; [|split; reflexivity]].
+    - intros e He. rewrite Ht0. rewrite Hd0 in He. apply (Hcur begin_ e ltac:(lia) He).
+    - intros c e Hc He. rewrite Ht0. apply (Hcur c e ltac:(lia) He). }
+  pose proof (gr_files cf hf K hf_inj cap_pos b' begin_ end_ (end_ - begin_) begin_ st0 HG0 HX0 HR0 ltac:(lia) ltac:(lia)) as HRe.
+  replace (S (end_ - begin_)) with (S end_ - begin_)%nat in HRe by lia.
+  destruct HRe as (_ & _ & R3 & R4); [intros c Hc; apply (proj1 HP' c Hc)|]. split; assumption.
 Qed.
 End GV3.
 
